@@ -11,7 +11,7 @@ T13s  -> Generated/T13s.lean   (from sr/value_types.py)
   * `srFromDatasetAsserts`   per `*ContentItem` class the value type its `from_dataset` passes to `_assert_value_type`
                              (each checked to call `_assert_value_type(dataset_copy, ...)` and then `_from_dataset_base`)
   * `srCtorValueType`        per class the value type its `__init__` passes to `ContentItem.__init__`
-  * `srOptionalNameClasses`  the tuple `value_types_with_optional_name` of `_from_dataset_base`
+  * `c13OptionalNameClasses`  the tuple `value_types_with_optional_name` of `_from_dataset_base`
   * `srBaseGuards`           the guards of `_from_dataset_base` (ValueType present; name present or optional) as a
                              decision tree: result 1 = default name inserted, 0 = dataset taken as it is
   * `srCheckDatasetRel`      the relationship-type guard of `ContentSequence._check_dataset`
@@ -208,7 +208,7 @@ def build_T13(tree):
             opt = [e.value for e in st.value.elts]
     if opt is None:
         raise Unsupported('value_types_with_optional_name not found')
-    out.append(lean_table('srOptionalNameClasses', 'List String', [_s(x) for x in opt],
+    out.append(lean_table('c13OptionalNameClasses', 'List String', [_s(x) for x in opt],
                           doc='`value_types_with_optional_name` of `ContentItem._from_dataset_base`'))
     g1 = _if_with(fn, "hasattr(dataset,'ValueType')")
     g2 = _if_with(fn, "hasattr(dataset,'ConceptNameCodeSequence')")
@@ -279,9 +279,9 @@ def build_T13(tree):
     return '\n\n'.join(out), hashlib.sha256(''.join(shas).encode()).hexdigest()
 
 
-ENUMS = [('ValueTypeValues', 'srValueTypes'), ('RelationshipTypeValues', 'srRelationshipTypes'),
-         ('GraphicTypeValues', 'srGraphicTypes'), ('GraphicTypeValues3D', 'srGraphicTypes3D'),
-         ('TemporalRangeTypeValues', 'srTemporalRangeTypes'), ('PixelOriginInterpretationValues', 'srPixelOrigins')]
+ENUMS = [('ValueTypeValues', 'c13ValueTypes'), ('RelationshipTypeValues', 'c13RelationshipTypes'),
+         ('GraphicTypeValues', 'c13GraphicTypes'), ('GraphicTypeValues3D', 'c13GraphicTypes3D'),
+         ('TemporalRangeTypeValues', 'c13TemporalRangeTypes'), ('PixelOriginInterpretationValues', 'c13PixelOrigins')]
 
 
 def build_T13e(tree):
